@@ -693,7 +693,8 @@ static void checkConfiguration(World& w, int i, const Op& op, const Obs& before,
 				if (nReal > 1 && !reqBeforeLast.empty()) {
 					std::vector<std::pair<int,int>> path; int c = q.dest;
 					for (int p = sh.st[size_t(q.dest)].parent; p >= 0; c = p, p = sh.st[size_t(p)].parent) if (sh.isCompo(p)) path.emplace_back(p, sh.st[size_t(c)].prong);
-					auto setOtherwise = [&](size_t lv) { for (int v : earlierPath[size_t(path[lv].first)]) if (v != path[lv].second) return true; return false; };
+					auto setOtherwise = [&](size_t lv) { if (r.dontCare[size_t(path[lv].first)]) return true;   /* an earlier request resolved it in a way the model cannot know (scheduling request in the batch) */
+						for (int v : earlierPath[size_t(path[lv].first)]) if (v != path[lv].second) return true; return false; };
 					int stop = -1;
 					for (size_t lv = 1; lv < path.size(); ++lv) {
 						const int rq = reqBeforeLast[size_t(path[lv].first)];     // what the request slot holds by now (later requests override earlier ones level by level)
